@@ -1830,6 +1830,20 @@ func exhaustive() {
 			g := buildSmall(shapes)
 			n := len(g.Nodes)
 			run.Count(fmt.Sprintf("exhaustive:graphs-%d", n))
+			if manifests <= 2 {
+				// GC cancelled at EVERY point: the context is done from its T-th Done() call on, for
+				// every T up to the number of calls a complete GC makes (before the rebuild, before
+				// each directory entry, never), then a GC that must finish the job
+				for mask := 0; mask < 1<<manifests; mask++ {
+					for t := 0; t <= manifests+n+3; t++ {
+						ops := smallHistory(n, mask, 0, 0)
+						ops = ops[:len(ops)-1] // without the Delete
+						ops = append(ops, op{K: 'S', N: 0}, op{K: 'S', N: 1}, op{K: 'C', N: t}, op{K: 'G'})
+						runCase(g, ops, 0)
+						run.Count("exhaustive:cancel-points")
+					}
+				}
+			}
 			if manifests <= 3 {
 				for mask := 0; mask < 1<<manifests; mask++ {
 					for target := 0; target < n; target++ {
@@ -1861,6 +1875,7 @@ func coverageFloors(n int) {
 		need["op:reopen"] = n / 20
 	}
 	if run.Thorough() {
+		need["exhaustive:cancel-points"] = 50
 		need["exhaustive:histories"] = 10000
 	}
 	var missing []string
